@@ -12,7 +12,7 @@ FIELDS = {"C18": ("overlapping_page_ranges", "bad_final_size", "old_size_out_of_
 MODES = {0: "one-instance", 1: "instance-per-thread", 2: "child-per-thread"}
 
 
-def module(imported):
+def module(imported, maxp=MAXP):
     from wasmgen import b64
     g = lambda k: ["local.get", k]
     gbody = [g(0), ["memory.grow"], ["end"]]
@@ -24,9 +24,9 @@ def module(imported):
                    {"type": 0, "locals": [], "body": [g(0), ["i32.atomic.load", 2, 0], ["end"]]}],
          "exports": [{"name": n, "kind": "func", "idx": i} for i, n in enumerate(["growA", "growB", "size", "wait", "notify", "add", "load"])]}
     if imported:
-        m["imports"] = [{"mod": "env", "name": "mem", "kind": "memory", "min": 1, "max": MAXP, "shared": True}]
+        m["imports"] = [{"mod": "env", "name": "mem", "kind": "memory", "min": 1, "max": maxp, "shared": True}]
     else:
-        m["memory"] = {"min": 1, "max": MAXP, "shared": True}
+        m["memory"] = {"min": 1, "max": maxp, "shared": True}
     return m
 
 
@@ -54,16 +54,27 @@ def run_all(wd, w2c2, tier, pid):
                 for san in ((False, True) if (mode == 1 or (mode == 0 and not imported)) and not split else (False,)):
                     jobs.append((md, srcs, imported, split, mode, san))
 
+    # a memory of 5000 pages grown past 4096 in large steps while the adders and the waiter are at work
+    md = os.path.join(wd, "sm-big")
+    os.makedirs(md)
+    open(os.path.join(md, "sm.wasm"), "wb").write(wasm_encode.encode(machine.enc_module(machine.norm_module(module(False, 5000)))))
+    rc, out, err = run([w2c2, "-t", "1", "sm.wasm", "sm.c"], cwd=md, timeout=60)
+    if rc == 0:
+        jobs.append((md, [os.path.join(md, "sm.c")], False, False, 2, "big"))
+        jobs.append((md, [os.path.join(md, "sm.c")], False, False, 0, "big"))
+
     def one(job):
         md, srcs, imported, split, mode, san = job
-        key = "%s-memory/%s/%s%s" % ("imported" if imported else "defined", MODES[mode], "file-per-function" if split else "one-file", "/asan" if san else "")
+        big = san == "big"
+        san = False if big else san
+        key = "%s-memory/%s/%s%s%s" % ("imported" if imported else "defined", MODES[mode], "file-per-function" if split else "one-file", "/asan" if san else "", "/5000-pages" if big else "")
         exe = os.path.join(md, "sm-%d%s" % (mode, "-asan" if san else ""))
-        rc, out, err = run(["gcc", "-O1" if san else "-O2", "-w", "-DWASM_THREADS_PTHREADS", "-DMODE=%d" % mode] + (["-DIMPORTED_MEMORY"] if imported else []) +
+        rc, out, err = run(["gcc", "-O1" if san else "-O2", "-w", "-DWASM_THREADS_PTHREADS", "-DMODE=%d" % mode] + (["-DIMPORTED_MEMORY"] if imported else []) + (["-DBIGMEMORY"] if big else []) +
                            (["-fsanitize=address", "-g"] if san else []) + ["-I", md, "-I", os.path.join(REPO, "w2c2"), os.path.join(BINDC, "shared_module.c")] + srcs + futex +
                            ["-o", exe, "-lpthread", "-lm"], timeout=300)
         if rc != 0:
             return key, None, ("compile", {"configuration": key, "stderr": err[-600:]})
-        rc, out, err = run([exe, rounds if not san else str(max(5, int(rounds) // 5))], timeout=600, env={"ASAN_OPTIONS": "detect_leaks=0"})
+        rc, out, err = run([exe, (rounds if not san else str(max(5, int(rounds) // 5))) if not big else str(max(6, int(rounds) // 10))], timeout=600, env={"ASAN_OPTIONS": "detect_leaks=0"})
         try:
             return key, json.loads(out.strip().splitlines()[-1]), None
         except (ValueError, IndexError):
